@@ -59,7 +59,8 @@ def gen_B(g, R, D):
             return B, dv
 
 
-PIPES = ["mul_eval", "onerank_sm", "marg_cond", "joint", "post", "lik", "moments", "info", "logcond_y", "trunc"]
+PIPES = ["mul_eval", "onerank_sm", "marg_cond", "joint", "post", "lik", "moments", "info", "logcond_y", "trunc", "approx"]
+NOMODEL = ("trunc", "approx")       # eager values tied to the model by C20 / C16 / C17; here: jit, vmap, grad vs eager
 OBJS = ["general", "onerank", "linear", "constant", "measure", "measure_cached", "diagmeasure", "pdf", "diagpdf",
         "cond_full", "cond_diag", "cond_ident", "cond_identdiag"]
 
@@ -78,9 +79,32 @@ def gen_trunc(g, mode=None):
     return d
 
 
+def gen_approx(g, kind=None):
+    """approximate conditionals built INSIDE the transformed function from arrays: moment-matched marginal (feature
+    models and heteroscedastic links) and the variational bound (lax.while_loop, stop_gradient)"""
+    from . import c16
+    kind = kind or g.choice(["lrbf", "lsem", "exp", "coshm1", "heaviside", "relu"])
+    Dx, Dy, Dk = g.randint(1, 2), g.randint(1, 2), g.randint(1, 2)
+    if kind not in ("lrbf", "lsem"):
+        Dk = min(Dk, Dy)
+    c = c16.gen_case(g, kind, Dx, Dy, Dk, R=1)
+    B, dv = gen_B(g, 1, Dx)
+    d = dict(scn="pipe", pipe="approx", kind=kind, R=1, D=Dx, Dy=Dy, Dk=Dk, B=B, dv=dv, mu=g.mat(1, Dx), ys=g.mat(1, Dy),
+             M=[c["M"]], b=[c["b"]])
+    if kind == "lrbf":
+        d.update(cc=c["c"], ll=c["l"], Sig=c["Sig"])
+    elif kind == "lsem":
+        d.update(W=c["W"], Sig=c["Sig"])
+    else:
+        d.update(W=c["W"], A=[c["A"]])
+    return d
+
+
 def gen_pipe(g, pipe):
     if pipe == "trunc":
         return gen_trunc(g)
+    if pipe == "approx":
+        return gen_approx(g)
     R = g.randint(1, 2); D = g.randint(1, 3)
     d = dict(scn="pipe", pipe=pipe, R=R, D=D)
     B, dv = gen_B(g, R, D)
@@ -130,6 +154,7 @@ def gen_descs(g, tier):
         for _ in range(2 if q else 25):
             out.append(gen_pipe(g, pipe))
     out += [gen_trunc(g, mode) for mode in ("lower", "upper", "both")]
+    out += [gen_approx(g, kind) for kind in ("lrbf", "lsem", "exp", "coshm1", "heaviside", "relu")]
     for kind in OBJS:
         for _ in range(1 if q else 10):
             out.append(gen_obj(g, kind))
@@ -168,7 +193,8 @@ def theta_of(d):
              "lik": ["B", "mu", "M", "b", "By", "xs", "ys"], "info": ["B", "mu", "M", "b", "By"],
              "logcond_y": ["B", "mu", "M", "b", "By", "ys"],
              "moments": ["B", "mu", "A", "a", "Bm", "bv", "Cm", "cv", "Dm", "dvv"],
-             "trunc": ["lam", "nu", "lb"] + [n for n in ("lo", "hi") if n in d]}[d["pipe"]]
+             "trunc": ["lam", "nu", "lb"] + [n for n in ("lo", "hi") if n in d],
+             "approx": ["B", "mu", "M", "b"] + [n for n in ("cc", "ll", "W", "A") if n in d] + ["ys"]}[d["pipe"]]
     return names
 
 
@@ -185,6 +211,25 @@ def make_fn(d):
             u = Ms.GaussianMeasure(Lambda=t["lam"], nu=t["nu"], ln_beta=t["lb"])
             tm = tmod.TruncatedGaussianMeasure(measure=u, lower_limit=t.get("lo"), upper_limit=t.get("hi"))
             return cat(tm.integrate("1"), tm.integrate("x"), tm.integrate("x**2"), tm.integrate("x**k", k=3))
+        return f
+    if pipe == "approx":
+        from gaussian_toolbox import approximate_conditional as ac
+        kind = d["kind"]; dv0 = jarr(d["dv"])
+        def cat(*xs):
+            return jnp.concatenate([jnp.ravel(x) for x in xs])
+        def f(t):
+            Sx = jnp.einsum("rik,rjk->rij", t["B"], t["B"]) + dv0[:, :, None] * jnp.eye(D)[None]
+            p = P.GaussianPDF(Sigma=Sx, mu=t["mu"])
+            if kind == "lrbf":
+                c = ac.LRBFGaussianConditional(M=t["M"], b=t["b"], mu=t["cc"], length_scale=t["ll"], Sigma=jarr([d["Sig"]]))
+            elif kind == "lsem":
+                c = ac.LSEMGaussianConditional(M=t["M"], b=t["b"], W=t["W"], Sigma=jarr([d["Sig"]]))
+            else:
+                cls = dict(exp=ac.HeteroscedasticExpConditional, coshm1=ac.HeteroscedasticCoshM1Conditional,
+                           heaviside=ac.HeteroscedasticHeavisideConditional, relu=ac.HeteroscedasticReLUConditional)[kind]
+                c = cls(M=t["M"], b=t["b"], A=t["A"], W=t["W"])
+            pm = c.affine_marginal_transformation(p)
+            return cat(pm.mu, pm.Sigma, c.integrate_log_conditional_y(p, y=t["ys"]))
         return f
     dv = jarr(d["dv"])
     def spd(B, dvv):
@@ -252,9 +297,9 @@ def make_fn(d):
 
 
 def coq_pipe(d):
-    if d["pipe"] == "trunc":
-        # the eager values of the truncated integrals are tied to the model by C20 (trunc/TruncGen.v needs the
-        # cdf tables of that check); here only jit / vmap / grad are compared with the eager run
+    if d["pipe"] in NOMODEL:
+        # the eager values of the truncated integrals / approximate conditionals are tied to the model by C20 / C16 /
+        # C17 (cdf tables, seams); here only jit / vmap / grad are compared with the eager run
         return "[:: Zpos xH; Zpos xH; Z0; Zpos xH; Zpos xH]"
     R, D = d["R"], d["D"]
     Sig = [spd_from(d["B"][r], d["dv"][r]) for r in range(R)]
@@ -431,10 +476,10 @@ def run_impl(d):
     names = theta_of(d)
     theta = {n: jarr(d[n]) for n in names}
     eager = np.asarray(f(theta), dtype=float)
-    if d["pipe"] == "trunc":
-        ob.nat("truncated pipeline", 1)
+    if d["pipe"] in NOMODEL:
+        ob.nat("pipeline without a model term", 1)
         if not np.all(np.isfinite(eager)):
-            fails.append(lin.fail(["C18"], "eager value not finite", "pipeline:trunc"))
+            fails.append(lin.fail(["C18"], "eager value not finite", "pipeline:" + d["pipe"]))
     else:
         ob.add("eager", eager)
     site = "pipeline:" + d["pipe"]
@@ -456,6 +501,11 @@ def run_impl(d):
         except Exception as e:
             fails.append(lin.fail(["C18"], "vmap raises %s: %s" % (type(e).__name__, str(e)[:160]), site))
     # reverse-mode gradient of the summed output w.r.t. every continuous parameter vs central differences
+    # (not for the heteroscedastic bounds: their variational parameters are found by a lax.while_loop under
+    # stop_gradient, so AD returns the partial derivative at the last iterate while central differences follow the
+    # iteration; the two agree only at an exact optimum)
+    if d["pipe"] == "approx" and d["kind"] not in ("lrbf", "lsem"):
+        return ob, fails
     try:
         # weighted sum with constant weights 1/max(1,|eager_i|): every term is O(1), so that the central differences
         # are not swamped by the rounding of one huge output component
